@@ -10,7 +10,8 @@ own parameters; the simulator declares a live-lock after `poll_budget` polls of 
 the runner (conclusive: verdict repeated, no reaction); the wall-clock watchdog is inconclusive.
 MAY: accounting permanently missing (error or keep polling, never complete).
 Mechanisms: `slurm-user-error-option`, `sge-typeerror`, `acct-lag-fatal`,
-`sched-failure-masked-by-result`.
+`sched-failure-masked-by-result`, `wf-worker-error-livelock` / `wf-no-result-livelock` (an exception from worker.run inside a workflow
+leaves the submitter spinning; detected by stack sampling in the runner, not by a timeout).
 """
 from __future__ import annotations
 
@@ -49,16 +50,16 @@ def gen_script(rng, sge):
                           "sig": rng.choice([0, 0, 15])})
         transients(1)
     r = rng.random()
-    if r < 0.58:
+    if r < 0.50:
         steps.append({"st": "run"})
-    elif r < 0.70:
+    elif r < 0.62:
         steps.append({"st": "run", "body_fails": True})
-    elif r < 0.78:
+    elif r < 0.70:
         steps.append({"st": "completed_noexec"})
-    elif r < 0.90:
+    elif r < 0.82:
         steps.append({"st": "failed", "state": rng.choice(["FAILED", "NODE_FAIL", "OUT_OF_MEMORY"]),
                       "rc": rng.choice([1, 2, 137]), "errfile": rng.random() < 0.7})
-    elif r < 0.95:
+    elif r < 0.94:
         steps.append({"st": "failed_after_run", "rc": 1})
     else:
         steps.append({"st": "acct_missing"})
@@ -182,6 +183,29 @@ def run_case(case, wctx):
         from vp.c28_tasks import EXPECT
         if out.get("value") != EXPECT[case["wf"]](case["x"]):
             bad.append({"kind": "wrong-value", "got": out.get("value")})
+    if got == "livelock":
+        # the submitter spins in its workflow loop: no scheduler command for 12 s, never back in the event loop
+        res["counters"]["livelocks_observed"] = 1
+        outs = []
+        tools = [c[0] for c in calls]
+        cause = None
+        if "e" in case["user"] and case["worker"] == "slurm" and "sbatch" in tools and "squeue" not in tools:
+            cause = "slurm-user-error-option"
+        elif any(x["ev"] == "acct_missing_told" for x in events) and tools[-1] == "sacct":
+            cause = "acct-lag-fatal"
+        if cause and want != "failed":
+            outs.append(_viol(res, [{"kind": "worker-error-expected-" + want, "cause": cause}], cause, out, events))
+        told_fail = any(x["ev"] == "verdict" and x["state"] != "COMPLETED" for x in events) or cause is not None \
+            or any(x["ev"] == "executed" and x["rc"] != 0 for x in events)
+        mech = "wf-worker-error-livelock" if case["wf"] != "single" and told_fail else None
+        if mech is None and case["wf"] != "single":
+            # the scheduler said COMPLETED for a job whose script never ran: worker.run returned, no result
+            ran = {x["job"] for x in events if x["ev"] == "executed"}
+            if any(x["ev"] == "verdict" and x["state"] == "COMPLETED" and x["job"] not in ran for x in events):
+                mech = "wf-no-result-livelock"
+        outs.append(_viol({**res, "counters": {} if outs else res["counters"]},
+                          bad + [{"kind": "livelock", "stack": out.get("stack")}], mech, out, events))
+        return outs[0] if len(outs) == 1 else {"multi": outs}
     if want == "may":
         if got == "complete":
             bad.append({"kind": "complete-without-verdict"})
@@ -225,15 +249,20 @@ def classify(case, out, calls, events, want, got):
 
 
 def batch(case, wctx):
-    return {"multi": [run_case(c, wctx) for c in case["cases"]]}
+    out = []
+    for c in case["cases"]:
+        r = run_case(c, wctx)
+        out.extend(r["multi"] if "multi" in r else [r])
+    return {"multi": out}
 
 
 def run(ctx):
     quick = ctx.tier == "quick"
-    n = 32 if quick else 1600
+    n = 32 if quick else 400
+    n = int(os.environ.get("VP_DEV_N") or n)  # development aid: a prefix of the same case sequence
     rng = ctx.rng("gen")
     cases = [gen_case(rng, i) for i in range(n)]
-    per = 2 if quick else 25
+    per = 2 if quick else 5
     ctx.rule = ("generated scenarios: worker (slurm 80% / sge 20%) x task shape (single, chain of 2, 2x2 parallel "
                 "workflow) x one response script (<=6 steps from pending, running, lagging queue, accounting missing, "
                 "cancelled/timeout/preempted or evicted, then run / run-with-failing-body / completed-without-run / "
@@ -241,7 +270,7 @@ def run(ctx):
                 "options in short/long form; non-trivial = >=2 response steps or a user option; distinct = distinct "
                 "scenario")
     results = ctx.pmap("vp.props.c28:batch", [{"cases": cases[i:i + per]} for i in range(0, n, per)],
-                       nproc=8 if quick else 16, timeout=900 if quick else 3000)
+                       nproc=8 if quick else 16, timeout=900 if quick else 10800)
     hist = {}
     for b in results:
         for r in b.get("multi", [b]):
@@ -258,5 +287,7 @@ def run(ctx):
 def replay(ctx, rep):
     from vp.worker import WCtx
     r = run_case(rep["case"], WCtx(ctx.scratch, ctx.seed, ctx.prop, ctx.tier))
-    print(env.jdump({k: r.get(k) for k in ("verdict", "mech", "witness", "why")}, indent=1))
-    return 1 if r["verdict"] == "violated" else (2 if r["verdict"] == "inconclusive" else 0)
+    rs = r["multi"] if "multi" in r else [r]
+    print(env.jdump([{k: x.get(k) for k in ("verdict", "mech", "witness", "why")} for x in rs], indent=1))
+    vs = {x["verdict"] for x in rs}
+    return 1 if "violated" in vs else (2 if "inconclusive" in vs else 0)
